@@ -47,6 +47,11 @@ type C20Tag struct {
 	ID   uint `gorm:"primaryKey"`
 	Name string
 }
+// embedded struct that carries constraints of its own (column names get the embeddedPrefix: DBName != field name)
+type C20Stamp struct {
+	Serial string `gorm:"unique"`
+	Batch  int    `gorm:"index"`
+}
 type C20Audit struct {
 	CreatedBy string
 	Note      string `gorm:"size:30"`
@@ -85,7 +90,7 @@ var c20Kinds = map[string]reflect.Type{
 	"nullstr": reflect.TypeOf(sql.NullString{}), "nullint": reflect.TypeOf(sql.NullInt64{}),
 	"owner": reflect.TypeOf(C20Owner{}), "powner": reflect.TypeOf((*C20Owner)(nil)), "org": reflect.TypeOf(C20Org{}),
 	"toys": reflect.TypeOf([]C20Toy(nil)), "badge": reflect.TypeOf(C20Badge{}), "tags": reflect.TypeOf([]C20Tag(nil)),
-	"audit": reflect.TypeOf(C20Audit{}),
+	"audit": reflect.TypeOf(C20Audit{}), "stamp": reflect.TypeOf(C20Stamp{}),
 }
 
 func c20IsRel(kind string) bool {
@@ -128,6 +133,18 @@ func (n c20Namer) TableName(s string) string {
 		return n.anon
 	}
 	return n.NamingStrategy.TableName(s)
+}
+
+// The relation families of c20_rel.go come in two versions whose Go type names differ by a trailing "a" (C20rUser9a /
+// C20rUser9) although they stand for ONE model that gained fields.  gorm derives the names of a join table's constraints
+// from the owner's type name; a real model keeps its name, so the version suffix is taken out here (harness artefact).
+var c20VerSuffix = regexp.MustCompile(`^(C20r[A-Za-z]+\d+)a$`)
+
+func (n c20Namer) RelationshipFKName(rel schema.Relationship) string {
+	if m := c20VerSuffix.FindStringSubmatch(rel.Name); m != nil {
+		rel.Name = m[1]
+	}
+	return n.NamingStrategy.RelationshipFKName(rel)
 }
 
 func c20Open(table string) (*gorm.DB, *Recorder) {
@@ -261,6 +278,8 @@ func c20Value(f c20Field, row int, fi int) (reflect.Value, bool) {
 		return reflect.ValueOf(sql.NullString{String: fmt.Sprintf("n%d_%d", row, fi), Valid: true}), true
 	case "nullint":
 		return reflect.ValueOf(sql.NullInt64{Int64: int64(n), Valid: true}), true
+	case "stamp":
+		return reflect.ValueOf(C20Stamp{Serial: fmt.Sprintf("ser%d_%d", row, fi), Batch: n}), true
 	case "audit":
 		return reflect.ValueOf(C20Audit{CreatedBy: fmt.Sprintf("u%d", row), Note: fmt.Sprintf("note%d_%d", row, fi)}), true
 	}
@@ -328,7 +347,8 @@ func c20RunHistory(sp c20Spec) (out c20Outcome) {
 	m2 := reflect.New(t2).Interface()
 	// --- migrate(v1)
 	if err := db.AutoMigrate(m1); err != nil {
-		return c20Outcome{Stage: "v1-rejected", Err: err.Error()}
+		// the generator only emits models SQLite can hold (exclusion list in c20_gen.go): a refusal is a failure
+		return c20Outcome{Stage: "v1-rejected", Err: err.Error(), Verdict: "AutoMigrate(v1) on an empty database returned an error", Observed: err.Error(), Master: c20Master(db, rec)}
 	}
 	st := &gorm.Statement{DB: db}
 	if err := st.Parse(m1); err != nil {
@@ -338,7 +358,7 @@ func c20RunHistory(sp c20Spec) (out c20Outcome) {
 	// --- insert rows
 	for i := 0; i < sp.Rows; i++ {
 		if err := db.Create(c20Record(t1, sp.V1, i).Interface()).Error; err != nil {
-			return c20Outcome{Stage: "insert-rejected", Err: err.Error()}
+			return c20Outcome{Stage: "insert-rejected", Err: err.Error(), Verdict: "the table AutoMigrate(v1) created rejects a record of the v1 model", Observed: err.Error(), Master: c20Master(db, rec)}
 		}
 	}
 	before, err := c20Dump(db, rec, sp.Table, oldCols)
@@ -367,6 +387,28 @@ func c20RunHistory(sp c20Spec) (out c20Outcome) {
 		out.Stage, out.Verdict = "second", "rows changed across the second identical AutoMigrate"
 		out.Expected, out.Observed = canon(before), canon(mid)
 		return
+	}
+	// what v1 declares exists on the table CreateTable produced
+	{
+		w1 := c20WantOf(sp.Table, sp.V1, nil)
+		cls := map[string]string{}
+		for _, f := range sp.V1 {
+			cls[c20ColName(f.Name, f.Tag)] = c20Class(f.Kind)
+		}
+		// (the behavioural probes need two rows: histories with fewer rows are not judged here)
+		if v, e, o := "", "", ""; sp.Rows >= 2 {
+			v, e, o = c20JudgeStructure(db, rec, sp.Table, w1, true, cls)
+			if v != "" {
+				out.Stage, out.Verdict, out.Expected, out.Observed = "v1-exists", v, e, o
+				out.Master = c20Master(db, rec)
+				return
+			}
+		}
+		if v, e, o := c20JudgeAsk(db, m1, w1, true); v != "" {
+			out.Stage, out.Verdict, out.Expected, out.Observed = "v1-exists", v, e, o
+			out.Master = c20Master(db, rec)
+			return
+		}
 	}
 	// --- (B) migrate(v2)
 	rec.Reset()
@@ -423,7 +465,7 @@ func c20RunHistory(sp c20Spec) (out c20Outcome) {
 		if c20IsRel(f.Kind) {
 			continue
 		}
-		if fd := st2.Schema.LookUpField(f.Name); fd == nil && f.Kind != "audit" {
+		if fd := st2.Schema.LookUpField(f.Name); fd == nil && f.Kind != "audit" && f.Kind != "stamp" {
 			continue
 		} else if fd != nil && (!fd.Readable || !fd.Creatable) {
 			continue
@@ -434,10 +476,94 @@ func c20RunHistory(sp c20Spec) (out c20Outcome) {
 			return
 		}
 	}
-	// observation only: a third run (AutoMigrate(v2) again)
+	// --- (C) what v2 declares EXISTS (c20_exist.go): structure + behaviour + gorm's own Has* answers
+	oldNames := map[string]bool{}
+	for _, f := range sp.V1 {
+		oldNames[f.Name] = true
+	}
+	want := c20WantOf(sp.Table, sp.V2, oldNames)
+	{ // latitude: an index NAME that v1 already declared with other members is a CHANGED index, not an added one:
+		// AutoMigrate looks indexes up by name and leaves it alone; the property only speaks about additions.
+		w1 := c20WantOf(sp.Table, sp.V1, nil)
+		var keep []c20WantIdx
+		for _, wi := range want.Idx {
+			changed := false
+			for _, o := range w1.Idx {
+				if wi.Name != "" && o.Name == wi.Name && (!c20SameCols(o.Cols, wi.Cols, false) || o.Unique != wi.Unique) {
+					changed = true
+				}
+			}
+			if !changed {
+				keep = append(keep, wi)
+			}
+		}
+		want.Idx = keep
+	}
+	classOf := map[string]string{}
+	for _, f := range sp.V2 {
+		classOf[c20ColName(f.Name, f.Tag)] = c20Class(f.Kind)
+	}
+	fail := func(stage, v, e, o string) c20Outcome {
+		out.Stage, out.Verdict, out.Expected, out.Observed = stage, v, e, o
+		out.Master = c20Master(db, rec)
+		return out
+	}
+	if v, e, o := c20JudgeStructure(db, rec, sp.Table, want, false, classOf); v != "" {
+		return fail("v2-exists", v, e, o)
+	}
+	if v, e, o := c20JudgeAsk(db, m2, want, false); v != "" {
+		return fail("v2-exists", v, e, o)
+	}
+	// added columns with a declared non-NULL default: the existing rows carry a value (ADD COLUMN used the full definition)
+	for _, wc := range want.Cols {
+		if wc.Added && wc.HasDefault {
+			var n int64
+			c20Quiet(rec, func() {
+				db.Session(&gorm.Session{NewDB: true}).Raw("SELECT count(*) FROM `" + sp.Table + "` WHERE `" + wc.Col + "` IS NULL").Row().Scan(&n)
+			})
+			if n > 0 {
+				return fail("v2-exists", "added column "+wc.Col+" declares a default but existing rows hold NULL", "0 NULL cells", fmt.Sprint(n))
+			}
+		}
+	}
+	// --- (D) a further AutoMigrate(v2): may still add the late `unique` of a new field; afterwards everything exists
+	allCols := append([]string(nil), st2.Schema.DBNames...)
+	var mig []string
+	for _, c := range allCols {
+		if f := st2.Schema.FieldsByDBName[c]; f != nil && !f.IgnoreMigration {
+			mig = append(mig, c)
+		}
+	}
+	beforeSettle, _ := c20Dump(db, rec, sp.Table, mig)
 	rec.Reset()
-	_ = db.AutoMigrate(m2)
+	err = db.AutoMigrate(m2)
 	out.Third = c20SchemaStmts(rec.Snapshot())
+	if err != nil {
+		out.Err = err.Error()
+		return fail("settle", "a further AutoMigrate(v2) returned an error", "", err.Error())
+	}
+	afterSettle, _ := c20Dump(db, rec, sp.Table, mig)
+	if canon(beforeSettle) != canon(afterSettle) {
+		return fail("settle", "rows changed across a further AutoMigrate(v2)", canon(beforeSettle), canon(afterSettle))
+	}
+	if v, e, o := c20JudgeStructure(db, rec, sp.Table, want, true, classOf); v != "" {
+		return fail("settle", v+" (even after a further AutoMigrate)", e, o)
+	}
+	if v, e, o := c20JudgeAsk(db, m2, want, true); v != "" {
+		return fail("settle", v+" (even after a further AutoMigrate)", e, o)
+	}
+	// --- (E) the database now matches v2: one more AutoMigrate(v2) must be silent
+	rec.Reset()
+	err = db.AutoMigrate(m2)
+	out.Second = c20SchemaStmts(rec.Snapshot())
+	if err != nil {
+		out.Err = err.Error()
+		return fail("third", "AutoMigrate(v2) on the database two earlier runs produced returned an error", "", err.Error())
+	}
+	if len(out.Second) > 0 {
+		return fail("third", "AutoMigrate(v2) still issues schema-changing statements after two earlier AutoMigrate(v2) runs", "no CREATE/ALTER/DROP", strings.Join(out.Second, " ;; "))
+	}
+	out.Second = nil
 	out.Stage = "ok"
 	return
 }
